@@ -320,7 +320,7 @@ def texts(rnd, n, names):
 def gen_cases(tier, seed):
     rnd = random.Random(seed)
     cases = []
-    names = ['utf-8', 'ascii', 'latin-1', 'utf-8-sig', 'UTF_8_SIG', 'iso-8859-1', 'x-unknown', 'css', 'utf-16', '']
+    names = ['utf-8', 'ascii', 'latin-1', 'utf-8-sig', 'UTF_8_SIG', 'iso-8859-1', 'x-unknown', 'css', 'CSS', 'Css', 'utf-16', '']
     # detection: all 4-byte prefixes over the significant bytes, both final flags, plus longer charset heads
     sig = [0xEF, 0xBB, 0xBF, 0xFF, 0xFE, 0x40, 0x00, 0x63, 0x68, 0x61, 0x20]
     for n in range(0, 5):
@@ -341,7 +341,7 @@ def gen_cases(tier, seed):
                 cases.append(('fix', t[:cut], rnd.choice(names[:6]), fin))
     n_text = len(cases) - n_det
     # one-shot and incremental, simple inner codecs (model) — every partition into <= 3 chunks for short ones
-    simple_texts = texts(rnd, 40 if tier == 'quick' else 400, ['ascii', 'utf-8', 'latin-1', 'utf-8-sig', 'x-unknown', 'css'])
+    simple_texts = texts(rnd, 40 if tier == 'quick' else 400, ['ascii', 'utf-8', 'latin-1', 'utf-8-sig', 'x-unknown', 'css', 'CSS'])
     for t in simple_texts:
         for enc in [None] + rnd.sample(SIMPLE_ENCS, 3):
             cases.append(('enc', t, enc))
